@@ -63,6 +63,13 @@ func runC10(s *Sim) {
 		}
 	}
 	s.Broker.Cfg = auto
+	if hd := Pick(t, "hook-delay", time.Duration(0), 0, 2*time.Millisecond, 20*time.Millisecond); hd > 0 {
+		// application callbacks that take time: notifications pile up behind them
+		for _, h := range y.Ups {
+			h.HookDelay = hd
+		}
+		s.Stat("env.slow-application-hooks")
+	}
 
 	// ---- history before the close: traffic, pending operations, possibly an outage ----
 	nHist := Pick(t, "hist", 6, 0, 3, 15)
